@@ -3,7 +3,7 @@ import json
 import os
 import vlib
 
-ACTIONS = ["ClientRequest", "AdvFlipBody", "AdvFlipMac", "AdvTruncMac", "AdvExtendMac", "AdvRenameKey",
+ACTIONS = ["ClientRequest", "ClientRecompose", "AdvFlipBody", "AdvFlipMac", "AdvTruncMac", "AdvExtendMac", "AdvRenameKey",
            "AdvRecaseKey", "AdvSwapAlg", "AdvChangeOrigId", "AdvRewriteId", "AdvShiftTime",
            "AdvStripTsig", "AdvMoveTsig", "AdvDupTsig", "AdvSetErr", "AdvSetOther",
            "AdvForgeErr", "AdvInsertUnsigned", "ServerRequest", "ServerErrorResponse",
@@ -21,7 +21,7 @@ DEVS = {
 META = {
     "category": "model_checking",
     "text": "TLC explores every TSIG exchange of the transcribed ClientTransaction/ClientSequence/ServerTransaction/ServerSequence/ServerError machines against an on-path adversary (17 kinds of tampering at every message), skewed clocks, truncation policies and an independent RFC 8945 responder that leaves answers unsigned (including runs of 99 and 100), with HMAC as a free constructor, and proves honest-verifies, the RFC-assigned error for every tampering, octet restoration, the 99/100 bound and that every MAC is the HMAC of the declarative RFC digest. Every explored behaviour is replayed with the real API, real messages and ring keys (MACs compared with an independent HMAC of the spec's term), and recorded random exchanges (octets, independent digest inputs) are validated by TLC.",
-    "note": "Trusted: TLC, ring's HMAC, the transcription of RFC 8945 4.3/5.2/5.3 in Tsig.tla, the harness codec. Symbolic crypto: unknown digest => unknown MAC. A MAC below the policy minimum may be BADTRUNC or FORMERR; the result of the client on an unsigned error answer is compared by class. 'Restored octets' = the message up to its last counted record (the library documents that the stale TSIG octets stay behind the message). The net::client::tsig / middleware wrappers are not driven.",
+    "note": "Wrappers (net::client::tsig::Connection, TsigMiddlewareSvc) are driven back-to-back in memory with a re-composing mock transport, honest clocks. Trusted: TLC, ring's HMAC, the transcription of RFC 8945 4.3/5.2/5.3 in Tsig.tla, the harness codec. Symbolic crypto: unknown digest => unknown MAC. A MAC below the policy minimum may be BADTRUNC or FORMERR; the result of the client on an unsigned error answer is compared by class. 'Restored octets' = the message up to its last counted record (the library documents that the stale TSIG octets stay behind the message).",
     "technique": "TLA+ spec (Tsig.tla, MC_Tsig.tla) + TLC exhaustive; spec->impl behaviour replay with independent HMAC; impl->spec trace validation (Trace_Tsig.tla)",
     "design_ref": "DESIGN.md §4 C11",
 }
@@ -35,6 +35,8 @@ GEN_TEMPLATE = """CONSTANTS
   MaxAns = %(maxans)d
   Bursts = {%(bursts)s}
   FaultsOn = %(faults)s
+  Retries = %(retries)d
+  T0 = %(t0)d
 SPECIFICATION Spec
 %(invs)s
 CHECK_DEADLOCK FALSE
@@ -46,7 +48,7 @@ MC_INVS = ["HonestVerifies", "TamperRejected", "ClocksRejected", "PolicyRejected
 
 def write_cfg(ctx, name, **kw):
     d = dict(dev="", keys="KeysQuick", modes='"txn", "seq"', servers='"impl", "rfc"',
-             clocks="ClocksQuick", maxans=3, bursts="99, 100", faults="TRUE",
+             clocks="ClocksQuick", maxans=3, bursts="99, 100", faults="TRUE", retries=1, t0=1000000,
              invs="INVARIANT Emit")
     d.update(kw)
     path = os.path.join(ctx.work, name + ".cfg")
@@ -78,7 +80,7 @@ def differing(ideal_tbl, dev_tbl):
     return diff
 
 
-def conv(ops, outs, diff, devname):
+def conv(ops, outs, diff, devname, wrap=False):
     """per-op expectation in the executor's observation format; annotates ops"""
     exp = []
     prev = None
@@ -110,6 +112,9 @@ def conv(ops, outs, diff, devname):
             e = {"res": res, "restored": o["restored"]}
             if k == "c_answer":
                 e["left"] = o["left"]
+            elif wrap:
+                # a request that fails verification never reaches the inner service
+                e["reached"] = o["res"] in ("Ok", "Unsigned")
             exp.append(e)
         else:
             exp.append({"res": o["res"]})
@@ -272,7 +277,7 @@ def explain_trace(ctx, trace, label):
 
 def run(ctx):
     thorough = ctx.tier == "thorough"
-    ctx.build("replay_tsig", "record_tsig")
+    ctx.build("replay_tsig", "record_tsig", "replay_tsigw")
 
     # 1. TLC decides the property on the specification (no deviation)
     mc_kw = gen_params(thorough)
@@ -331,6 +336,36 @@ def run(ctx):
     ctx.selftest("perturbed expectation is reported by replay_tsig", "FAIL " in out)
     ctx.replay_cases("replay_tsig", cases, label="tsig")
 
+    # 2b. S->I through the wrappers: net::client::tsig::Connection -> mock transport
+    # (re-composes on retry) -> TsigMiddlewareSvc -> scripted service; honest clocks,
+    # Time Signed symbolic (T0 = SymTime)
+    gen_wrap = os.path.join(ctx.work, "gen-wrap.ndjson")
+    gw = ctx.tlc("MC_Tsig", write_cfg(ctx, "gen-wrap", servers='"impl"', clocks="ClocksNone", t0=6000,
+                                      keys="KeysThorough" if thorough else "KeysQuick",
+                                      maxans=4 if thorough else 3),
+                 workers=8, label="gen-wrap", coverage=False, cases_to=gen_wrap, count=False)
+    ctx.require_ok(gw, "Gen_Tsig wrappers")
+    wcases = os.path.join(ctx.work, "cases-wrap.ndjson")
+    nw = 0
+    with open(wcases, "w") as f:
+        for key, out in sorted(load_gen(gen_wrap).items()):
+            cin = json.loads(key)
+            exp = conv(cin["ops"], out["ops"], set(), None, wrap=True)
+            cin["terms"] = {"ideal": out["macs"]}
+            f.write(json.dumps({"in": cin, "exp": exp}, separators=(",", ":")) + "\n")
+            nw += 1
+    if nw < 500:
+        raise vlib.ToolError("generator produced too few wrapper behaviours (%d)" % nw)
+    ctx.stage("merge-wrap", {"behaviours": nw})
+    with open(wcases) as f, open(head, "w") as h:
+        for i, line in enumerate(f):
+            if i >= 20:
+                break
+            h.write(line)
+    rc, out, err, _ = ctx.run_bin("replay_tsigw", ["--selftest-perturb"], stdin_path=head)
+    ctx.selftest("perturbed expectation is reported by replay_tsigw", "FAIL " in out)
+    ctx.replay_cases("replay_tsigw", wcases, label="tsig-wrappers")
+
     # 3. I->S: recorded random exchanges validated by TLC
     n_traces = 6 if thorough else 2
     for i in range(n_traces):
@@ -367,6 +402,21 @@ def run(ctx):
                 open(bad, "w").write("\n".join(lines) + "\n")
                 ok2, _, _ = validate(ctx, bad, sorted(used), "trace-selftest-" + what)
                 ctx.selftest("trace with corrupted %s is rejected by Trace_Tsig" % what, not ok2)
+    # 3b. I->S through the wrappers (client wrapper -> mock transport with retries ->
+    # middleware -> scripted service), same event format, same validator
+    for i in range(2 if thorough else 1):
+        tr = os.path.join(ctx.work, "trace-wrap-%d.ndjson" % i)
+        rc, out, err, _ = ctx.run_bin("replay_tsigw", ["--record", tr, str(ctx.seed * 100 + 50 + i),
+                                                        "2500" if thorough else "800"])
+        if rc != 0:
+            raise vlib.ToolError("replay_tsigw --record failed: " + (out + err)[-800:])
+        ok, used, rej = explain_trace(ctx, tr, "trace-wrap-%d" % i)
+        ctx.traces += 1
+        for d in used:
+            ctx.known(d, {"trace": os.path.basename(tr)})
+        if not ok:
+            ctx.violation("recorded exchange through the TSIG wrappers is not a behaviour of Tsig.tla", rej)
+    ctx.assume("wrappers: honest clocks only (they read Time48::now()); Time Signed of wrapper behaviours is symbolic in the model and taken from the wire; all responses of the scripted service are produced before the client validates the first")
     ctx.assume("HMAC is a free constructor: a digest that was never signed has an unknown MAC (unforgeability); equal MACs mean equal digests")
     ctx.assume("a MAC longer than the algorithm's output may be rejected as FORMERR (RFC 8945 5.2.2.1) or BADSIG (it cannot equal the computed MAC)")
     ctx.assume("a MAC shorter than the receiver's minimum may be rejected as BADTRUNC or FORMERR (RFC 8945 5.2.2.1 distinguishes by the RFC minimum, the library always says BADTRUNC)")
